@@ -22,7 +22,8 @@ PROP = dict(
                        "Octo.C11.strict_null_welltyped", "Octo.C11.table_strict_null", "Octo.C11.comparisons_strict",
                        "Octo.C11.table_strict_except_null_handlers", "Octo.C11.is_null_never_null",
                        "Octo.C11.den_sound", "Octo.C11.tree_kleene", "Octo.C11.filter_spec", "Octo.C11.filter_kleene", "Octo.C11.typecheckU_sound", "Octo.C11.sql_tree_kleene", "Octo.C11.cmp_typed_null",
-                       "Octo.C11.cmp_typed_value", "Octo.C11.call_error_reached",
+                       "Octo.C11.cmp_typed_value", "Octo.C11.call_error_reached", "Octo.C11.C11_sql_refuted",
+                       "Octo.C11.C11_sql_partial",
                        "Octo.C11.C11_full"],
     nontrivial=_nontrivial,
     rule="ops: `and`/`or` over every operand list in {TRUE,FALSE,NULL}^k (k<=5 quick, k<=7 thorough) and over "
